@@ -86,6 +86,14 @@ func VerifTraceMark(mark string) {
 	}
 }
 
+// VerifTraceHook lets a harness that installs its own hook (VerifSetHook replaces the tracer's) pass the hook points on
+// to the tracer; no-op when tracing is off
+func VerifTraceHook(point string, args ...any) {
+	if verifTrace.f != nil {
+		verifTraceHook(point, args...)
+	}
+}
+
 func verifTraceAddr(a *model.FeatureAddressType) (s string) {
 	defer func() {
 		if r := recover(); r != nil {
